@@ -144,7 +144,7 @@ def run(ctx):
     ctx.require("units_swept", 100)
     ctx.require("probe_expressions_compared", 10)
     ctx.require("foreign_pickles_loaded", 5)
-    needed = ["Unit._multiply", "Unit._divide", "Unit.__pow__", "Unit.root", "Unit.as_ratio", "Unit.quantify", "Prefix.__mul__"]
+    needed = ["Unit.__mul__", "Unit.__truediv__", "Unit.__pow__", "Unit.root", "Unit.as_ratio", "Unit.quantify", "Prefix.__mul__"]
     missing = [s for s in needed if s not in sites]
     if missing:
         ctx.not_reached(f"constructor call sites never observed registering a unit: {missing}")
